@@ -156,3 +156,18 @@ Proof.
   - (* KComplex *) destruct v; reflexivity.
   - (* KOtherT *) destruct v; reflexivity.
 Qed.
+
+(* ---------- array indices (analyzer.analyze_classical_indices) ---------- *)
+Theorem analyze_index_literal i d s :
+  analyze_indices [IExpr (ELit (VInt i))] (Some [d]) s =
+  if (0 <=? i) && (i <? d) then Ok ([(i, i, 1)], s) else Err EValidation.
+Proof.
+  unfold analyze_indices. cbn. unfold bindM, ret, as_int_index, guard, fail. cbn. destruct ((0 <=? i) && (i <? d)); reflexivity.
+Qed.
+
+Theorem analyze_index_count items ds s :
+  ds <> [] -> List.length items <> List.length ds -> analyze_indices items (Some ds) s = Err EValidation.
+Proof.
+  intros Hd Hl. unfold analyze_indices. destruct ds as [|d ds]; [congruence|].
+  apply Nat.eqb_neq in Hl. unfold guard, bindM. rewrite Hl. reflexivity.
+Qed.
